@@ -12,6 +12,7 @@ import (
 	"net/url"
 	"os"
 	"path/filepath"
+	"runtime/debug"
 	"sort"
 	"strconv"
 	"strings"
@@ -388,4 +389,18 @@ func (h hostStyle) ServeHTTP(w http.ResponseWriter, r *http.Request) {
 		}
 	}
 	h.inner.ServeHTTP(w, r)
+}
+
+// readAllGuarded reads a body a backend handed out. Memory that is no longer mapped (a slice into a
+// database file that has been remapped since) faults; the fault is turned into an error here instead
+// of killing the process, so that it is reported as what it is: a body that cannot be read.
+func readAllGuarded(r io.Reader) (b []byte, err error) {
+	old := debug.SetPanicOnFault(true)
+	defer debug.SetPanicOnFault(old)
+	defer func() {
+		if p := recover(); p != nil {
+			err = fmt.Errorf("fault while reading the body: %v", p)
+		}
+	}()
+	return io.ReadAll(r)
 }
